@@ -14,14 +14,13 @@ theorem rot_time_extraction_complete : Extracted.rotFailures = [] ∧ Extracted.
 theorem rot_time_facts_hold : Extracted.rotTimeFacts.all (·.2) = true ∧ Extracted.rotTimeFacts.length = 13 := by decide
 
 /-- `_time_rotation` advances from the scheduled point (the repair of F9 is in place) -/
-theorem rot_advances_from_schedule : Extracted.rotParams = ⟨true⟩ := by decide
+theorem rot_advances_from_schedule : Extracted.rotParams.advancesFromSchedule = true := by decide
 
 /-- C15 grid theorem for the code as extracted -/
 theorem C15_extracted (z : Nat → Int) (fs : Rot.FS) (c : Rot.Cfg) (start : Nat) (hc : Rot.CfgOK c)
     (hf : c.freq ≠ .disabled) (l : List (Rot.Stmt × Nat)) :
     Rot.GridInv (Rot.initialRot z c start) (Rot.period c) (l.map (·.2))
       (Rot.run Extracted.rotParams z (Rot.restart z fs c start) (Rot.writeOps l)).sink.nextRot := by
-  rw [rot_advances_from_schedule]
-  exact Rot.C15_grid z fs c start hc hf l
+  exact Rot.C15_grid _ rot_advances_from_schedule z fs c start hc hf l
 
 end Obligations
